@@ -486,6 +486,108 @@ SUITES = [
           {"quick": 1000, "thorough": 40000}, describe=describe_reader, shard=300),
 ]
 
+
+# ------------------------------------------------------------------------------------------------
+# dispatch order: BcpTransportManager._receive_loop awaits each command's handler before reading the next
+def gen_dispatch(rng, tier, i):
+    n = rng.randint(2, 7)
+    msgs = []
+    for k in range(n):
+        kind = rng.choice(["slow", "slow", "fast", "fast", "unknown"])
+        msgs.append({"cmd": {"slow": "vslow", "fast": "vfast", "unknown": "vnope"}[kind], "id": k,
+                     "delay8": rng.choice([0, 1, 2, 3, 8]) if kind == "slow" else 0})
+    cuts = sorted(set(rng.randrange(1, 40 * n) for _ in range(rng.choice([0, 1, 2, 5]))))
+    return {"msgs": msgs, "cuts": cuts}
+
+
+_DISP = {}
+
+
+def _dispatch_rig():
+    if "rig" in _DISP:
+        return _DISP["rig"]
+    from rig import Rig
+    from mpf.tests.loop import MockQueueSocket
+
+    class Sock(MockQueueSocket):
+        def send(self, data):
+            if data == b'reset\n':
+                self.recv_queue.append(b'reset_complete\n')
+                return len(data)
+            return super().send(data)
+
+    def mock_loop(r):
+        r.client_socket = Sock(r.loop)
+        r.clock.mock_socket("localhost", 5050, r.client_socket)
+
+    r = Rig({}, use_bcp=True, mock_loop=mock_loop, patches={"bcp": {"servers": []}})
+    r.machine_config_patches["bcp"] = {"servers": []}
+    r.start()
+    log = []
+
+    async def vslow(client, id, delay8, **kwargs):
+        log.append(["start", id])
+        await asyncio.sleep(delay8 / 8.0)
+        log.append(["done", id])
+
+    async def vfast(client, id, **kwargs):
+        log.append(["start", id])
+        log.append(["done", id])
+    r.machine.bcp.interface.register_command_callback("vslow", vslow)
+    r.machine.bcp.interface.register_command_callback("vfast", vfast)
+    _DISP["rig"] = r
+    _DISP["log"] = log
+    return r
+
+
+def run_dispatch(case):
+    from mpf.core.bcp.bcp_socket_client import encode_command_string
+    r = _dispatch_rig()
+    log = _DISP["log"]
+    del log[:]
+    stream = b"".join((encode_command_string(m["cmd"], id=m["id"], delay8=m["delay8"]) + "\n").encode() for m in case["msgs"])
+    prev = 0
+    for c in [c for c in case["cuts"] if c < len(stream)] + [len(stream)]:
+        if c > prev:
+            r.client_socket.recv_queue.append(stream[prev:c])
+            prev = c
+    r.advance(10)
+    return {"log": [list(x) for x in log]}
+
+
+def coq_dispatch(case, out):
+    inp = coqlist("(%s, %d)" % (blit(m["cmd"] != "vnope"), m["id"]) for m in case["msgs"])
+    exp = coqlist("(%s, %d)" % (blit(k == "start"), i) for k, i in out["log"])
+    return "(%s, %s)" % (inp, exp)
+
+
+def oracle_dispatch(case, out):
+    want = []
+    for m in case["msgs"]:
+        if m["cmd"] != "vnope":
+            want += [["start", m["id"]], ["done", m["id"]]]
+    if out["log"] != want:
+        return [{"sig": "dispatch-order", "what": "commands of one connection were not handled one after the other in the "
+                                                  "order sent: %r" % out["log"]}]
+    return []
+
+
+def shrink_dispatch(case):
+    ms = case["msgs"]
+    for i in range(len(ms)):
+        yield {"msgs": ms[:i] + ms[i + 1:], "cuts": case["cuts"]}
+    if case["cuts"]:
+        yield {"msgs": ms, "cuts": []}
+
+
+HDR_DISPATCH = ("From C19 Require Import Model.\nDefinition run := dispatch_run.\n"
+                "Definition out_eqb := list_eqb (fun a b : bool * Z => Bool.eqb (fst a) (fst b) && Z.eqb (snd a) (snd b)).\n")
+
+SUITES.append(
+    Suite("dispatch", gen_dispatch, run_dispatch, HDR_DISPATCH, coq_dispatch, oracle_dispatch, shrink_dispatch,
+          lambda c, o: sum(1 for m in c["msgs"] if m["cmd"] == "vslow" and m["delay8"] > 0) >= 1,
+          {"quick": 150, "thorough": 3000}, shard=200))
+
 LEVEL_TEXT = ("Machine-checked proof (Coq) that, in a byte-level model of encode/decode and of the urllib pieces they use, "
               "decode(encode(cmd,kw)) = (cmd,kw) for every command and every parameter dictionary outside two recorded "
               "ambiguity classes (each witnessed by a _refuted theorem and reproduced on the code on every run), that an "
